@@ -195,6 +195,12 @@ def _process_func(u, header_line, lines, mutate=None):
         itext, _ = lower.lower_body(' '.join(stmts), cls=None, log=log)
         pre = pre + [itext]
         log.hit('R1 ctor initialiser list', len(stmts))
+    if pre:
+        k = b.index('{') + 1
+        b = b[:k] + '\n    ' + '\n    '.join(pre) + b[k:]
+    if post:
+        k = b.rindex('}')
+        b = b[:k] + '    ' + '\n    '.join(post) + '\n' + b[k:]
     for pat, rep, must in rules:
         b2, n = re.subn(pat, rep, b, flags=re.S)
         if n == 0 and must:
@@ -202,12 +208,6 @@ def _process_func(u, header_line, lines, mutate=None):
         log.hit('U %s' % pat, n)
         b = b2
     b, nloops = lower.splice_loop_contracts(b, loops, reach_prefix=re.sub(r'\W', '_', sig.split('(')[0].split()[-1].lstrip('*')) + '.L')
-    if pre:
-        k = b.index('{') + 1
-        b = b[:k] + '\n    ' + '\n    '.join(pre) + b[k:]
-    if post:
-        k = b.rindex('}')
-        b = b[:k] + '    ' + '\n    '.join(post) + '\n' + b[k:]
     nin, nout, same = lower.verbatim_ratio(raw_body, b)
     u.funcs.append({'function': qual, 'file': relpath, 'line': f.line, 'c_name': sig.split('(')[0].split()[-1].lstrip('*'),
                     'loops': nloops, 'loop_contracts': sorted(loops), 'tokens_in': nin, 'tokens_out': nout,
